@@ -22,7 +22,7 @@ ASSUMPTIONS = ["like-for-like comparison: history and fresh interpreter use the 
 CASE_TIMEOUT = {"quick": 400, "thorough": 600}
 WATCHDOG = {"quick": 1500, "thorough": 6000}
 
-BOOL1 = ["cmp", "cmp3", "xorbits", "balanced", "const", "oracle_named", "shadow_reduce"]
+BOOL1 = ["cmp", "cmp3", "xorbits", "balanced", "const", "oracle_named", "shadow_reduce", "named_t"]
 ANY = list(O.SOURCES)
 
 
@@ -102,7 +102,7 @@ def gen_history(rng, nops):
         elif r < 0.85:
             i = pick(lambda k: (k[0] == "qf" and k[2]) or k[0] == "algo")
             if i is not None:
-                fw = rng.choice(["qiskit", "qasm", "qasm", "qasm", "sympy", "qasm"])
+                fw = rng.choice(["qiskit", "qasm", "qasm", "qasm", "sympy", "qasm", "cirq"])
                 add(["export", i, fw, rng.choice(["circuit", "gate"])], ("export",))
         elif r < 0.9:
             i = pick(lambda k: (k[0] == "qf" and k[2]) or k[0] == "algo")
@@ -167,6 +167,9 @@ CORPUS = [
     [["compile", "shadow_inspect", True, "default", True], ["compile", "tuple", True, "default", True], ["encode_decode", 1]],
     [["compile", "and", True, "default", True], ["compile", "and_other_body", True, "default", True], ["defs", "caller_f", 0], ["defs", "caller_f", 1], ["truth_table", 2]],
     [["compile", "ident", True, "default", True], ["defs", "caller_g", 0], ["compile", "inc", True, "default", True], ["defs", "caller_g", 2], ["defs", "caller_g", 0]],
+    [["compile", "named_h", True, "default", True], ["export", 0, "qiskit", "gate"], ["export", 0, "qasm", "circuit"], ["export", 0, "qiskit", "gate"], ["export", 0, "cirq", "gate"]],
+    [["compile", "named_t", True, "default", True], ["export", 0, "qiskit", "gate"], ["grover", 0, None], ["export", 2, "qasm", "gate"]],
+    [["compile", "named_size", True, "fast", True], ["export", 0, "qiskit", "circuit"], ["export", 0, "qiskit", "gate"], ["truth_table", 0], ["export", 0, "qasm", "circuit"]],
     [["compile_callable", "cmp", "default", False], ["compile", "cmp", True, "default", True], ["compile_callable", "cmp", "default", True], ["grover", 0, None], ["export", 2, "qasm", "circuit"]],
     [["compile_callable", "add", "default", True], ["compile_callable", "tuple", "default", False], ["truth_table", 0], ["decompile", 1]],
     [["compile", "inc", True, "default", True], ["defs", "param_caller", 0], ["bind", 1, {"c": 1}], ["bind", 1, {"c": 2}], ["bind", 1, {"c": 1}], ["truth_table", 3]],
